@@ -71,6 +71,11 @@ func (g *Geometry) MarshalJSON() ([]byte, error) {
 // of a GeoJSON Geometry. This function is used when the geometry is the top level
 // document to be marshalled.
 func (g *Geometry) MarshalBSON() ([]byte, error) {
+	if g == nil {
+		// a nil pointer: the empty geometry document, as for &Geometry{}
+		return bson.Marshal(&geometryMarshallDoc{})
+	}
+
 	ng := newGeometryMarshallDoc(g)
 	return bson.Marshal(ng)
 }
@@ -80,8 +85,9 @@ func (g *Geometry) MarshalBSON() ([]byte, error) {
 func (g *Geometry) MarshalBSONValue() (bsontype.Type, []byte, error) {
 	// implementing MarshalBSONValue allows us to marshal into a null value
 	// needed to match behavior with the JSON marshalling.
+	// The bson encoder calls this method on a nil pointer too (encoding/json writes null itself).
 
-	if g.Coordinates == nil && len(g.Geometries) == 0 {
+	if g == nil || (g.Coordinates == nil && len(g.Geometries) == 0) {
 		return bsontype.Null, nil, nil
 	}
 
